@@ -6,6 +6,7 @@ import (
 	"go/constant"
 	"go/types"
 	"math/big"
+	"strconv"
 	"strings"
 
 	"golang.org/x/tools/go/ssa"
@@ -33,6 +34,7 @@ type SpecCtx struct {
 	owner  *FuncContract
 	inOld  bool // inside old(...): parameter names denote their entry values
 	params map[string]bool
+	callee bool // evaluating a callee's contract at a call site
 }
 
 type ghostInst struct {
@@ -207,6 +209,9 @@ func (c *SpecCtx) eval(x Expr) TV {
 	case *ECall:
 		return c.call(n)
 	case *EQuant:
+		if tv, ok := c.expandConstQuant(n); ok {
+			return tv
+		}
 		cc := c.child()
 		var decls []string
 		var guards []Term
@@ -248,6 +253,57 @@ func (c *SpecCtx) eval(x Expr) TV {
 	}
 	c.fail("unsupported expression %T", x)
 	return TV{}
+}
+
+// expandConstQuant: `forall i int :: lo <= i && i < hi ==> body` with literal bounds at most 64 apart
+// (typically the indices of a fixed-size array) is expanded into the conjunction of its instances, which
+// keeps such facts ground (no dependence on E-matching across whole-array copies).
+func (c *SpecCtx) expandConstQuant(n *EQuant) (tv TV, ok bool) {
+	if !n.Forall || len(n.Vars) != 1 || n.Vars[0].Type != "int" {
+		return TV{}, false
+	}
+	imp, isBin := n.Body.(*EBin)
+	if !isBin || imp.Op != "==>" {
+		return TV{}, false
+	}
+	g, isBin := imp.X.(*EBin)
+	if !isBin || g.Op != "&&" {
+		return TV{}, false
+	}
+	name := n.Vars[0].Name
+	lob, ok1 := g.X.(*EBin)
+	hib, ok2 := g.Y.(*EBin)
+	if !ok1 || !ok2 || lob.Op != "<=" || hib.Op != "<" {
+		return TV{}, false
+	}
+	if id, isID := lob.Y.(*EIdent); !isID || id.Name != name {
+		return TV{}, false
+	}
+	if id, isID := hib.X.(*EIdent); !isID || id.Name != name {
+		return TV{}, false
+	}
+	lit := func(x Expr) (v int64, ok bool) {
+		defer func() {
+			if r := recover(); r != nil {
+				ok = false
+			}
+		}()
+		t := c.asInt(c.eval(x))
+		v, err := strconv.ParseInt(t.S, 10, 64)
+		return v, err == nil
+	}
+	lo, okl := lit(lob.X)
+	hi, okh := lit(hib.Y)
+	if !okl || !okh || hi-lo > 64 || hi < lo {
+		return TV{}, false
+	}
+	var cs []Term
+	for k := lo; k < hi; k++ {
+		cc := c.child()
+		cc.vars[name] = TV{Sc{intLit(k)}, mathInt}
+		cs = append(cs, cc.asBool(cc.eval(imp.Y)))
+	}
+	return TV{Sc{and(cs...)}, mathBool}, true
 }
 
 func pickType(a, b types.Type) types.Type {
@@ -859,6 +915,11 @@ func (c *SpecCtx) call(n *ECall) TV {
 		if !ok {
 			c.fail("calls() needs a string literal")
 		}
+		if c.callee {
+			// a callee's contract applied at a call site: its call counts are internal to the callee and
+			// say nothing about the caller's counters
+			return TV{Sc{c.e.freshConst("calleecalls", SInt)}, mathInt}
+		}
 		return TV{Sc{c.e.callCount(c.heap, st.V)}, mathInt}
 	case "nth": // nth(tuple, i): component of a multi-valued pure call
 		a := c.eval(n.Args[0])
@@ -1236,7 +1297,7 @@ func (c *SpecCtx) functionAxioms(fn *types.Func, key string, args []TV, out TV) 
 		return
 	}
 	c.e.axiomMemo[memo] = true
-	cc := &SpecCtx{e: c.e, heap: c.heap, old: c.heap, vars: map[string]TV{}, pkg: pkg, lets: lets, ghost: map[string]ghostInst{}, depth: c.depth + 1}
+	cc := &SpecCtx{e: c.e, heap: c.heap, old: c.heap, vars: map[string]TV{}, pkg: pkg, lets: lets, ghost: map[string]ghostInst{}, depth: c.depth + 1, callee: true}
 	if pkg == nil {
 		cc.pkg = c.pkg
 	}
